@@ -501,7 +501,7 @@ def specs_nonmarkov(tier):
         for I0 in gr.subsets(nodes, 1, 2 if n <= 3 else 1):
             rest = [v for v in nodes if v not in I0]
             for R0 in gr.subsets(rest, 0, 1 if n <= 3 else 0):
-                for (tmin, tmax) in ((0, "inf"), (1.5, 2.5), (0, 2)):
+                for (tmin, tmax) in ((0, "inf"), (1.5, 2.5), (0, 2), (-4, -2)):
                     if n == 4 and (tmin, tmax) != (0, "inf") and not thorough:
                         continue
                     for form in ("sep", "joint"):
@@ -547,7 +547,7 @@ def specs_fast_sir(tier):
             for I0 in gr.subsets(nodes, 1, 1):
                 out.append(dict(fn="fast_SIR", n=n, edges=es, I0=list(I0), R0=[], tau=tau, gamma=gamma,
                                 tw=None, rw=None, menu=menu[:2], full=True))
-        for (tmin, tmax) in ((0, 1.2), (1.5, 3.0)):
+        for (tmin, tmax) in ((0, 1.2), (1.5, 3.0), (-5, -3.4)):
             for I0 in gr.subsets(nodes, 1, 1):
                 for tw in (None, "w"):
                     out.append(dict(fn="fast_SIR", n=n, edges=es, I0=list(I0), R0=[], tau=0.3, gamma=0.7,
